@@ -237,6 +237,38 @@ static void c19_run(const Case &c, Result &r) {
       if (!slurp_any("out2.sol", s2) || !parse_sol(s2, sf2, &why)) { r.fail("basis-reload-solution-file", "second run wrote no usable solution file"); return; }
       if (sf2.status1 != "OPTIMAL" || sf2.value != ref.value) { r.fail("basis-reload-differs", "second run (-B) reports '" + sf2.status1 + "' value " + qstr(sf2.value)); return; }
       r.label("basis:-b-then--B");
+      // ... and it must be the optimal basis itself, not merely a starting point from which the second run finds the
+      // optimum again: read it the way -B does and evaluate it exactly
+      std::string berr;
+      mpq_QSprob pb = sut_build(tm, R_COLS_ROWS, &berr);
+      if (pb) {
+        QSbasis *Bf = mpq_QSread_basis(pb, "out.bas");
+        if (!Bf) r.fail("written-basis-unreadable", "mpq_QSread_basis rejects the file esolver -b wrote");
+        else {
+          if (Bf->nstruct == tm.n() && Bf->nrows == tm.m()) {
+            std::string cs(Bf->cstat, Bf->nstruct), rs(Bf->rstat, Bf->nrows);
+            BasisEval be;
+            basis_eval(tm, cs, rs, be);
+            if (be.singular) r.fail("written-basis-singular", "the basis file written with -b describes a singular basis: " + cs + "/" + rs);
+            else if (!be.pfeas) r.fail("written-basis-not-optimal:primal", "the basis written with -b is not primal feasible when read back: cstat=" + cs + " rstat=" + rs);
+            else if (!be.dfeas) {
+              // (a wrong-signed reduced cost below the double tolerance is the recorded C12 finding, not esolver's doing)
+              Q worst = 0;
+              for (int k = 0; k < tm.n() + tm.m() && k < (int)be.dj.size(); k++) {
+                char st = k < tm.n() ? cs[k] : rs[k - tm.n()];
+                if (st == '1') continue;
+                Q v = st == '0' ? Q(-be.dj[k]) : (st == '2' ? be.dj[k] : abs(be.dj[k]));
+                if (v > worst) worst = v;
+              }
+              if (worst >= Q("1/1000000000")) r.fail("written-basis-not-optimal:dual", "the basis written with -b is not dual feasible when read back: cstat=" + cs + " rstat=" + rs);
+              else r.label("written-basis:dual-infeasible-below-1e-9");
+            } else r.label("written-basis:optimal-when-read-back");
+          } else r.fail("written-basis-size", "basis read back has the wrong dimensions");
+          mpq_QSfree_basis(Bf);
+        }
+        mpq_QSfree_prob(pb);
+      }
+      if (r.verdict != PASS) return;
     }
   }
   r.nontrivial = ref.truth == T_OPTIMAL && nopt >= 2;
